@@ -124,4 +124,99 @@ theorem RW.strike_index_le {w w' : RW} {n : Nat} (hs : 0 < w.size)
   have hnge : ¬ n < w.index := by intro hlt; simp [hlt] at hv
   omega
 
+-- `initialize_from_persisted` ------------------------------------------------------------------
+
+theorem lt_two_pow_bitLength (b : Nat) : b < 2 ^ bitLength b := by
+  unfold bitLength
+  by_cases h : b = 0
+  · subst h; decide
+  · simp only [h, ↓reduceIte]; exact Nat.lt_log2_self
+
+theorem bitLength_le_of_lt {b k : Nat} (h : b < 2 ^ k) : bitLength b ≤ k := by
+  unfold bitLength
+  by_cases h0 : b = 0
+  · simp [h0]
+  · simp only [h0, ↓reduceIte]
+    have := (Nat.log2_lt h0).mpr h
+    omega
+
+theorem RW.fromPersisted_size (size i b : Nat) : (RW.fromPersisted size i b).size = size := by
+  unfold RW.fromPersisted
+  by_cases h : bitLength b - size > 0 <;> simp [h]
+
+/-- a persisted state that fits the window is taken over as it is -/
+theorem RW.fromPersisted_of_fits {size i b : Nat} (h : b < 2 ^ size) :
+    RW.fromPersisted size i b = { size, index := i, bitfield := b } := by
+  unfold RW.fromPersisted
+  have := bitLength_le_of_lt h
+  have h0 : ¬ bitLength b - size > 0 := by omega
+  simp [h0]
+
+/-- closed form: index and bitfield move by the excess width -/
+theorem RW.fromPersisted_eq (size i b : Nat) :
+    RW.fromPersisted size i b =
+      { size, index := i + (bitLength b - size), bitfield := b >>> (bitLength b - size) } := by
+  unfold RW.fromPersisted
+  by_cases h : bitLength b - size > 0
+  · simp [h]
+  · have : bitLength b - size = 0 := by omega
+    simp [this]
+
+/-- whatever was persisted, the loaded window satisfies the representation invariant -/
+theorem RW.fromPersisted_wf {size : Nat} (hs : 0 < size) (i b : Nat) :
+    (RW.fromPersisted size i b).wf := by
+  rw [RW.fromPersisted_eq]
+  refine ⟨hs, ?_⟩
+  show b >>> (bitLength b - size) < 2 ^ size
+  rw [Nat.shiftRight_eq_div_pow, Nat.div_lt_iff_lt_mul (Nat.pow_pos (by decide)), ← Nat.pow_add]
+  have h1 := lt_two_pow_bitLength b
+  exact Nat.lt_of_lt_of_le h1 (Nat.pow_le_pow_right (by decide) (by omega))
+
+/-- **no recorded number is lost on load**: everything below the persisted index and every
+number whose bit is set in the persisted bitfield — at whatever position, also beyond the
+configured size — is refused by the loaded window -/
+theorem RW.fromPersisted_keeps_seen (size i b n : Nat)
+    (h : n < i ∨ b.testBit (n - i) = true) : (RW.fromPersisted size i b).isValid n = false := by
+  rw [RW.fromPersisted_eq, RW.isValid_eq]
+  simp only
+  by_cases c1 : n < i + (bitLength b - size)
+  · simp [c1]
+  · rcases h with h | h
+    · omega
+    · simp only [c1, ↓reduceIte]
+      by_cases c2 : n ≥ i + (bitLength b - size) + size
+      · -- beyond the loaded window there is no set bit
+        have hlt : n - i ≥ bitLength b := by omega
+        have := testBit_of_lt_pow (lt_two_pow_bitLength b) hlt
+        rw [this] at h; cases h
+      · simp only [c2, ↓reduceIte, Nat.testBit_shiftRight]
+        have : bitLength b - size + (n - (i + (bitLength b - size))) = n - i := by omega
+        rw [this, h]; rfl
+
+/-- what the window that wrote the state refuses, the window loaded from it refuses -/
+theorem RW.fromPersisted_keeps_refused (w : RW) (size n : Nat) (h : w.isValid n = false) :
+    (RW.fromPersisted size w.index w.bitfield).isValid n = false := by
+  apply RW.fromPersisted_keeps_seen
+  rw [RW.isValid_eq] at h
+  by_cases c1 : n < w.index
+  · exact Or.inl c1
+  · by_cases c2 : n ≥ w.index + w.size
+    · simp [c1, c2] at h
+    · right; simpa [c1, c2] using h
+
+/-- … and nothing at or above the loaded index is refused without having been recorded -/
+theorem RW.fromPersisted_frame (size i b n : Nat)
+    (hge : (RW.fromPersisted size i b).index ≤ n) (h : b.testBit (n - i) = false) :
+    (RW.fromPersisted size i b).isValid n = true := by
+  rw [RW.fromPersisted_eq] at hge ⊢
+  rw [RW.isValid_eq]
+  simp only at hge ⊢
+  have c1 : ¬ n < i + (bitLength b - size) := by omega
+  simp only [c1, ↓reduceIte]
+  by_cases c2 : n ≥ i + (bitLength b - size) + size
+  · simp [c2]
+  · simp only [c2, ↓reduceIte, Nat.testBit_shiftRight]
+    have : bitLength b - size + (n - (i + (bitLength b - size))) = n - i := by omega
+    rw [this, h]; rfl
+
 end Aiocoap.Oscore
